@@ -4,6 +4,7 @@ package main
 
 import (
 	"fmt"
+	"os"
 	"go/types"
 	"sort"
 	"strings"
@@ -606,6 +607,10 @@ func mergeVal(g *Term, a, b Value) (Value, bool) {
 			// (merging would turn every later offset and length into an ite-term)
 			return nil, false
 		}
+		if !av.Bytes && (av.Obj != bv.Obj || av.Off != bv.Off || av.Len != bv.Len || av.Cap != bv.Cap) {
+			// generic slices keep concrete geometry on every path: never merged unless identical
+			return nil, false
+		}
 		if av.Obj != bv.Obj {
 			// a nil/empty slice has no backing object: allow wildcard
 			if av.Obj == 0 {
@@ -718,6 +723,99 @@ func mergeVal(g *Term, a, b Value) (Value, bool) {
 	return nil, false
 }
 
+// canMerge mirrors mergeVal's shape conditions without building any term (cheap pre-check).
+func canMerge(a, b Value) bool {
+	switch av := a.(type) {
+	case nil:
+		return b == nil
+	case *Term:
+		bv, ok := b.(*Term)
+		return ok && av.S == bv.S
+	case VPtr:
+		bv, ok := b.(VPtr)
+		if !ok {
+			return false
+		}
+		if av.Nil.IsTrue() || bv.Nil.IsTrue() {
+			return true
+		}
+		if av.Obj != bv.Obj || len(av.Path) != len(bv.Path) || (av.BIdx == nil) != (bv.BIdx == nil) {
+			return false
+		}
+		for i := range av.Path {
+			if av.Path[i] != bv.Path[i] {
+				return false
+			}
+		}
+		return true
+	case VIface:
+		bv, ok := b.(VIface)
+		if !ok {
+			return false
+		}
+		if av.Nil.IsTrue() || bv.Nil.IsTrue() {
+			return true
+		}
+		return types.Identical(av.Dyn, bv.Dyn) && canMerge(av.Val, bv.Val)
+	case VStruct:
+		bv, ok := b.(VStruct)
+		if !ok || len(av.Fields) != len(bv.Fields) {
+			return false
+		}
+		for i := range av.Fields {
+			if !canMerge(av.Fields[i], bv.Fields[i]) {
+				return false
+			}
+		}
+		return true
+	case VArray:
+		bv, ok := b.(VArray)
+		if !ok || len(av.Elems) != len(bv.Elems) {
+			return false
+		}
+		for i := range av.Elems {
+			if !canMerge(av.Elems[i], bv.Elems[i]) {
+				return false
+			}
+		}
+		return true
+	case VTuple:
+		bv, ok := b.(VTuple)
+		if !ok || len(av.Elems) != len(bv.Elems) {
+			return false
+		}
+		for i := range av.Elems {
+			if !canMerge(av.Elems[i], bv.Elems[i]) {
+				return false
+			}
+		}
+		return true
+	case VSlice:
+		bv, ok := b.(VSlice)
+		if !ok || av.Bytes != bv.Bytes {
+			return false
+		}
+		if !av.Bytes {
+			return av.Obj == bv.Obj && av.Off == bv.Off && av.Len == bv.Len && av.Cap == bv.Cap
+		}
+		if keepGeometry && (av.Off != bv.Off || av.Len != bv.Len) {
+			return false
+		}
+		return av.Obj == bv.Obj || av.Obj == 0 || bv.Obj == 0
+	case VString:
+		_, ok := b.(VString)
+		return ok
+	case VMap:
+		bv, ok := b.(VMap)
+		return ok && (av.Obj == bv.Obj || av.Nil.IsTrue() || bv.Nil.IsTrue())
+	case VFunc:
+		bv, ok := b.(VFunc)
+		return ok && av.Fn == bv.Fn && av.Builtin == bv.Builtin && len(av.Bindings) == 0 && len(bv.Bindings) == 0
+	}
+	// opaque payloads and error records: let mergeVal decide
+	return true
+}
+
 // Mergeable is implemented by opaque payloads that carry symbolic data.
 type Mergeable interface {
 	MergeWith(g *Term, other interface{}) (interface{}, bool)
@@ -795,6 +893,7 @@ type PanicInfo struct {
 }
 
 var mergeFail string
+var mergeDebug = os.Getenv("GOSYM_MERGEDBG") != ""
 
 // keepGeometry: see mergeVal/VSlice (set per harness by the "keepgeom" spec flag).
 var keepGeometry bool
@@ -813,11 +912,26 @@ func mergeOutcomes(entryLen int, a, b *Outcome) (*Outcome, bool) {
 			return nil, false
 		}
 	}
+	// cheap shape pre-check before any term is built
+	if !canMerge(a.Ret, b.Ret) {
+		if mergeDebug {
+			mergeFail = "ret: " + describe(a.Ret) + " vs " + describe(b.Ret)
+		}
+		return nil, false
+	}
+	for id, oa := range a.St.heap {
+		if ob, inB := b.St.heap[id]; inB && oa != ob {
+			if oa.Kind != ob.Kind || !types.Identical(oa.Typ, ob.Typ) || (oa.Kind == KCell && !canMerge(oa.Val, ob.Val)) || len(oa.Elems) != len(ob.Elems) || len(oa.Entries) != len(ob.Entries) {
+				if mergeDebug {
+					mergeFail = fmt.Sprintf("heap obj %d (%s, %s): %s vs %s", id, oa.Site, oa.Typ, describe(oa.Val), describe(ob.Val))
+				}
+				return nil, false
+			}
+		}
+	}
 	ga := And(a.St.pc[entryLen:]...)
-	_ = b
 	ret, ok := mergeVal(ga, a.Ret, b.Ret)
 	if !ok {
-		mergeFail = "ret: " + describe(a.Ret) + " vs " + describe(b.Ret)
 		return nil, false
 	}
 	heap := make(map[ObjID]*Object, len(a.St.heap))
@@ -829,7 +943,6 @@ func mergeOutcomes(entryLen int, a, b *Outcome) (*Outcome, bool) {
 		}
 		m, ok := mergeObj(ga, oa, ob)
 		if !ok {
-			mergeFail = fmt.Sprintf("heap obj %d (%s, %s): %s vs %s", id, oa.Site, oa.Typ, describe(oa.Val), describe(ob.Val))
 			return nil, false
 		}
 		heap[id] = m
@@ -1084,6 +1197,49 @@ func (s *State) collect(from ObjID, ret Value) {
 	for id := range s.heap {
 		if id >= from && id < 1<<29 && !live[id] {
 			delete(s.heap, id)
+		}
+	}
+}
+
+
+// checkSlices (debug): every generic slice's window lies inside its backing array
+func (s *State) checkSlices(where string) {
+	var chk func(v Value)
+	chk = func(v Value) {
+		switch x := v.(type) {
+		case VSlice:
+			if !x.Bytes && x.Obj != 0 && x.Cap.IsConst() && x.Off.IsConst() {
+				o, ok := s.heap[x.Obj]
+				if !ok {
+					panic(fmt.Sprintf("%s: slice over missing object %d", where, x.Obj))
+				}
+				if arr, ok := o.Val.(VArray); ok {
+					if int(x.Off.Int()+x.Cap.Int()) > len(arr.Elems) {
+						panic(fmt.Sprintf("%s: slice obj %d off %d cap %d over array of %d (%s)", where, x.Obj, x.Off.Int(), x.Cap.Int(), len(arr.Elems), o.Site))
+					}
+				}
+			}
+		case VStruct:
+			for _, f := range x.Fields {
+				chk(f)
+			}
+		case VArray:
+			for _, f := range x.Elems {
+				chk(f)
+			}
+		case VIface:
+			if !x.Nil.IsTrue() {
+				chk(x.Val)
+			}
+		case VTuple:
+			for _, f := range x.Elems {
+				chk(f)
+			}
+		}
+	}
+	for _, o := range s.heap {
+		if o.Kind == KCell {
+			chk(o.Val)
 		}
 	}
 }
